@@ -712,6 +712,8 @@ fn reused_place_case(c: &mut Ctx, rng: &mut Rng) {
 }
 
 pub fn run(c: &mut Ctx) {
+    // this property rebuilds every state many times: very large sparse states are capped at 2^22 buckets
+    crate::states::set_huge_max_lg(22);
     c.run_scenarios(|c, idx, rng| match crate::util::mix(idx) % 9 {
         7 => {
             if crate::util::mix(idx) % 5 == 0 && !c.is_miri() {
